@@ -264,9 +264,10 @@ class ExecExpr(ExecBase):
         return self.is_symseq(v) or isinstance(v, (VList, VTuple))
 
     def next_call_id(self, base):
-        n = self.call_ordinal.get(base, 0)
-        self.call_ordinal[base] = n + 1
-        return f"{base}#{n}"
+        n = self.stmt_counters.get(base, 0)
+        self.stmt_counters[base] = n + 1
+        where = (self.inline_stack[-1] + "/" if self.inline_stack else "") + f"L{self.cur_line}"
+        return f"{base}@{where}#{n}"
 
     def e_BoolOp(self, node, st):
         is_and = isinstance(node.op, ast.And)
